@@ -120,7 +120,7 @@ def subterms(sv, depth=0):
                                 yield from subterms(z, depth + 1)
 
 
-SV_HEADS = {"k", "param", "ld", "call", "bin", "cmp", "not", "neg", "cast", "fcast", "discr", "agg", "ref", "proj", "phi",
+SV_HEADS = {"vagg", "k", "param", "ld", "call", "bin", "cmp", "not", "neg", "cast", "fcast", "discr", "agg", "ref", "proj", "phi",
             "upd", "try", "elem", "ovf", "streq", "min", "max", "fresh", "model"}
 
 
@@ -159,6 +159,8 @@ def sv_str(sv, depth=0):
     if h == "agg":
         kind = sv[1] if isinstance(sv[1], str) else str(sv[1])
         return "%s#%s{%s}" % (short(kind), sv[2], ", ".join(r(x) for x in sv[3]))
+    if h == "vagg":
+        return "%s{%s}" % (short(sv[1]), " | ".join("#%s(%s)" % (vi, ", ".join(r(x) for x in f)) for vi, f in sv[2]))
     if h == "ref":
         return "&%s" % loc_str(sv[1], depth + 1)
     if h == "proj":
@@ -335,7 +337,7 @@ class State:
                     found = True
                     break
             if not found:
-                v = ("ld", loc, self.epoch.get(root, "entry"))
+                v = ("ld", loc, self.epoch_of(loc))
         # fold explicit sub-entries into the value read (whole-aggregate reads)
         subs = None
         n = len(proj)
@@ -348,8 +350,20 @@ class State:
             v = apply_updates(v, subs)
         return v
 
+    def epoch_of(self, loc):
+        root, proj = loc
+        r = self.epoch.get(root)
+        f = self.epoch.get((root, proj[0])) if proj else None
+        if r is None and f is None:
+            return "entry"
+        if f is None:
+            return r
+        return (r, f)
+
     def write(self, loc, v):
         root, proj = loc
+        if WRITE_LOG is not None and root[0] == "P":
+            WRITE_LOG.add(loc)
         n = len(proj)
         dead = [k for k in self.mem if k[0] == root and len(k[1]) > n and k[1][:n] == proj]
         for k in dead:
@@ -358,11 +372,18 @@ class State:
 
     def havoc(self, loc, tag):
         root, proj = loc
+        if WRITE_LOG is not None and root[0] == "P":
+            WRITE_LOG.add(loc)
         n = len(proj)
         dead = [k for k in self.mem if k[0] == root and len(k[1]) >= n and k[1][:n] == proj]
         for k in dead:
             del self.mem[k]
-        self.epoch[root] = tag
+        if proj:
+            self.epoch[(root, proj[0])] = tag
+        else:
+            self.epoch[root] = tag
+            for k in [k for k in self.epoch if isinstance(k, tuple) and len(k) == 2 and k[0] == root and k != root]:
+                del self.epoch[k]
         # shadow any ancestor entry
         for cut in range(len(proj)):
             if (root, proj[:cut]) in self.mem:
@@ -416,6 +437,10 @@ class State:
                 return Dom(min(da.lo, db.lo), min(da.hi, db.hi))
             return Dom(max(da.lo, db.lo), max(da.hi, db.hi))
         if h == "discr":
+            inner = sv[1]
+            if isinstance(inner, tuple) and inner[0] == "vagg":
+                ds = sorted(DISCR_OF.get((inner[1], vi), vi) for vi, _ in inner[2])
+                return Dom(ds[0], ds[-1], frozenset(x for x in range(ds[0], ds[-1] + 1) if x not in ds))
             nv = DISCR_RANGE.get(sv_adt(sv[1]))
             if nv is not None:
                 return Dom(nv[0], nv[1])
@@ -741,7 +766,9 @@ class State:
         return None
 
 
+WRITE_LOG = None   # set of written pointee locations while an Interp runs (write-set summaries)
 DISCR_RANGE = {}   # adt key -> (lo, hi) of discriminants
+DISCR_OF = {}      # (adt key, variant index) -> discriminant value
 ADT_OF_SV = {}
 
 
@@ -827,6 +854,17 @@ def project(v, rest):
                 v = K("usize", len(fields))
                 continue
             return ("proj", v, tuple(rest[i:]))
+        if h == "vagg":
+            if e[0] == "dc":
+                hit = None
+                for vi, fields in v[2]:
+                    if vi == e[1]:
+                        hit = ("agg", v[1], vi, fields)
+                if hit is None:
+                    return ("proj", v, tuple(rest[i:]))
+                v = hit
+                continue
+            return ("proj", v, tuple(rest[i:]))
         if h == "ld":
             if e[0] == "ix":
                 return ("proj", v, tuple(rest[i:]))
@@ -907,6 +945,14 @@ def apply_updates(v, subs):
 
 
 # ------------------------------------------------------------------------------------ join
+def _variants_of(v):
+    if isinstance(v, tuple) and v[0] == "agg" and isinstance(v[1], str) and v[1] not in ("tuple", "array") and v[2] is not None:
+        return v[1], {v[2]: v[3]}
+    if isinstance(v, tuple) and v[0] == "vagg":
+        return v[1], dict(v[2])
+    return None, None
+
+
 def join_sv(a, b, block, loc, A, B, out):
     if a == b:
         return a
@@ -915,6 +961,27 @@ def join_sv(a, b, block, loc, A, B, out):
         for i, (x, y) in enumerate(zip(a[3], b[3])):
             fields.append(join_sv(x, y, block, (loc[0], loc[1] + (("f", i, str(i)),)), A, B, out))
         return ("agg", a[1], a[2], tuple(fields))
+    ka, va = _variants_of(a)
+    kb, vb = _variants_of(b)
+    if ka is not None and ka == kb:
+        merged = {}
+        for vi in set(va) | set(vb):
+            fa, fb = va.get(vi), vb.get(vi)
+            if fa is None:
+                merged[vi] = fb
+            elif fb is None:
+                merged[vi] = fa
+            elif len(fa) == len(fb):
+                merged[vi] = tuple(join_sv(x, y, block, (loc[0], loc[1] + (("dc", vi, str(vi)), ("f", i, str(i)))), A, B, out)
+                                   for i, (x, y) in enumerate(zip(fa, fb)))
+            else:
+                merged = None
+                break
+        if merged is not None:
+            if len(merged) == 1:
+                (vi, f), = merged.items()
+                return ("agg", ka, vi, f)
+            return ("vagg", ka, tuple(sorted(merged.items())))
     phi = ("phi", block, loc)
     ta, tb = sv_type(a), sv_type(b)
     if ta is not None and ta == tb:
@@ -933,8 +1000,12 @@ def join_states(A, B, block, widen_prev=None):
     S = State()
     roots = set(A.epoch) | set(B.epoch)
     for r in roots:
-        ea, eb = A.epoch.get(r, "entry"), B.epoch.get(r, "entry")
-        S.epoch[r] = ea if ea == eb else ("j", block, r)
+        ea, eb = A.epoch.get(r), B.epoch.get(r)
+        if ea == eb:
+            if ea is not None:
+                S.epoch[r] = ea
+        else:
+            S.epoch[r] = ("j", block)
     phis = []
     for loc in set(A.mem) | set(B.mem):
         va = A.read(loc)
@@ -949,41 +1020,73 @@ def join_states(A, B, block, widen_prev=None):
         # relational facts survive on the phi when they hold for both incoming values
     for key in set(A.zone) & set(B.zone):
         S.zone[key] = max(A.zone[key], B.zone[key])
-    # transfer zone facts onto phis:  (phi - y <= k) if (a - y <= ka) in A and (b - y <= kb) in B
-    if phis:
-        others = set()
-        for (x, y) in list(A.zone) + list(B.zone):
-            others.add(x)
-            others.add(y)
-        for (phi, d, a, b) in phis:
-            na, nb = A.norm(a), B.norm(b)
-            if na[0] is None or nb[0] is None:
-                pass
+    # relational facts survive on a phi when they hold for both incoming values
+    iphis = [x for x in phis if _is_intlike(x[0])]
+    if iphis and len(iphis) <= 16:
+        candsA = set()
+        for (x, y) in A.zone:
+            candsA.add(x)
+            candsA.add(y)
+        candsA.update(k for k in A.doms if not is_const(k))
+        candsB = set()
+        for (x, y) in B.zone:
+            candsB.add(x)
+            candsB.add(y)
+        candsB.update(k for k in B.doms if not is_const(k))
+        others = [y for y in (candsA & candsB) if _is_intlike(y)]
+        if len(others) > 40:
+            others = sorted(others, key=repr)[:40]
+        pairs = []
+        for (phi, d, a, b) in iphis:
             for y in others:
-                if y == a or y == b:
+                if y == a or y == b or y == phi:
                     continue
-                ka = _rel_bound(A, a, y)
-                kb = _rel_bound(B, b, y)
-                if ka is not None and kb is not None:
-                    S.zone[(phi, y)] = max(ka, kb)
-                ka = _rel_bound(A, y, a)
-                kb = _rel_bound(B, y, b)
-                if ka is not None and kb is not None:
-                    S.zone[(y, phi)] = max(ka, kb)
+                pairs.append((phi, a, b, y, y, y))
+        # phi against phi (two values that change together)
+        for i, (p1, d1, a1, b1) in enumerate(iphis):
+            for (p2, d2, a2, b2) in iphis[i + 1:]:
+                pairs.append((p1, a1, b1, p2, a2, b2))
+        for (p, a, b, q, ya, yb) in pairs:
+            ka = _rel_bound(A, a, ya)
+            kb = _rel_bound(B, b, yb)
+            if ka is not None and kb is not None:
+                k = max(ka, kb)
+                if abs(k) < (1 << 33):
+                    S.zone[(p, q)] = min(S.zone.get((p, q), INF), k)
+            ka = _rel_bound(A, ya, a)
+            kb = _rel_bound(B, yb, b)
+            if ka is not None and kb is not None:
+                k = max(ka, kb)
+                if abs(k) < (1 << 33):
+                    S.zone[(q, p)] = min(S.zone.get((q, p), INF), k)
     return S
 
 
+INT_TYPES = {"u8", "u16", "u32", "u64", "u128", "usize", "i8", "i16", "i32", "i64", "i128", "isize"}
+
+
+def _is_intlike(sv):
+    t = sv_type(sv)
+    return t in INT_TYPES
+
+
 def _rel_bound(S, a, b):
-    """smallest known k with a - b <= k in S (zone lookup after normalisation), or None"""
+    """smallest known k with a - b <= k in S (zone lookup or unary bounds), or None"""
     (ba, oa), (bb, ob) = S.norm(a), S.norm(b)
-    if ba is None or bb is None:
-        return None
-    if ba == bb:
+    if ba is not None and ba == bb:
         return oa - ob
-    z = S.zone.get((ba, bb))
-    if z is None:
-        return None
-    return z + oa - ob
+    best = None
+    if ba is not None and bb is not None:
+        z = S.zone.get((ba, bb))
+        if z is not None:
+            best = z + oa - ob
+    da = S.dom(ba) if ba is not None else Dom(0, 0)
+    db = S.dom(bb) if bb is not None else Dom(0, 0)
+    if da.hi != INF and db.lo != -INF:
+        k = da.hi + oa - db.lo - ob
+        if best is None or k < best:
+            best = k
+    return best
 
 
 def widen(old, new, visits):
